@@ -704,6 +704,53 @@ def r05_8(chk, tier):
                     fn['n'], A.text(idx), ctext, seen_tests or 'none'), {'tests': seen_tests}, fn['q'])
     chk.require(n >= 1, 'R05.8: no input-derived index found in the binary parsers')
 
+def r05_9(chk, tier):
+    """CSV column cache: cached_events_[name_index_] only for a column that exists."""
+    chk.rule('R05.9', 'csv m_columns_filter: every cached_events_[name_index_] access is dominated by `name_index_ < column_names_.size()`, or by a '
+                      'test `c > 0` of a counter that is incremented only under that test (a row with more fields than columns must not index '
+                      'past the cache)', floor=8)
+    facts = F.load(['csv'], tier)
+    if 'csv' not in chk.units: chk.units.append('csv')
+    fns = [f for f in U.functions(facts, cls='m_columns_filter') if f.get('body') is not None]
+    chk.require(fns, 'csv m_columns_filter not found')
+    def in_bounds_guard(g, nd):
+        for a, lab, e in g.guards(nd):
+            c = G.comparison(a)
+            if c and c[0] == '<' and lab is True and A.ref_name(c[1]) == 'name_index_' and any(A.callee_name(y) == 'size' for y in A.calls_in(c[2])): return True
+            if c and c[0] == '>=' and lab is False and A.ref_name(c[1]) == 'name_index_' and any(A.callee_name(y) == 'size' for y in A.calls_in(c[2])): return True
+        return False
+    # counters incremented only under the bounds test
+    good_ctr = {}; graphs = {}
+    for fn in U.one_per_inst(fns):
+        g = graphs[fn['id']] = C.CFG(fn['body'])
+        for nd in g.rpo:
+            if nd.kind not in ('stmt', 'cond') or not isinstance(nd.ast, dict): continue
+            for x in A.walk_no_lambda(nd.ast):
+                if x.get('k') == 'UnaryOperator' and x.get('op') == '++':
+                    s2 = A.strip(x.get('sub'), casts=True)
+                    if s2 is not None and s2.get('k') == 'MemberExpr' and s2.get('n') != 'name_index_':
+                        good_ctr[s2['n']] = good_ctr.get(s2['n'], True) and in_bounds_guard(g, nd)
+    n = 0
+    for fn in U.one_per_inst(fns):
+        g = graphs[fn['id']]
+        k = 0
+        for nd in g.rpo:
+            if nd.kind not in ('stmt', 'cond') or not isinstance(nd.ast, dict): continue
+            for x in A.walk_no_lambda(nd.ast):
+                if x.get('k') == 'CXXOperatorCallExpr' and x.get('oop') == '[]' and len(x.get('args') or []) == 2 and A.ref_name(x['args'][0]) == 'cached_events_' and A.ref_name(x['args'][1]) == 'name_index_':
+                    k += 1; n += 1
+                    chk.analysed(fn)
+                    site = U.site(fn, 'cached_events_[name_index_]#%d' % k)
+                    ok = in_bounds_guard(g, nd)
+                    via = None
+                    if not ok:
+                        for a, lab, e in g.guards(nd):
+                            c = G.comparison(a)
+                            if c and c[0] == '>' and lab is True and A.const(c[2]) == 0 and good_ctr.get(A.ref_name(c[1])): ok = True; via = A.ref_name(c[1])
+                    if ok: chk.ok('R05.9', site, {'line': x.get('l'), 'via_counter': via} if k == 1 or via else None)
+                    else: chk.fail('R05.9', site, fn['file'], x.get('l'), '%s: cached_events_[name_index_] at line %s is not protected by `name_index_ < column_names_.size()` (nor by a counter that only counts under it): a record with more fields than column names indexes past the cache' % (fn['n'], x.get('l')), None, fn['q'])
+    chk.require(n >= 8, 'R05.9: only %d cache accesses found' % n)
+
 def run(chk, tier, only_rule=None):
     chk.explanation = EXPLANATION
     chk.not_decided = NOT_DECIDED
@@ -716,3 +763,4 @@ def run(chk, tier, only_rule=None):
     r05_6(chk, tier)
     r05_7(chk, tier)
     r05_8(chk, tier)
+    r05_9(chk, tier)
